@@ -979,10 +979,28 @@ func (c *Fn) slice(x *ssa.Slice) (bool, string, string) {
 		}
 		return true, "0 <= low <= high <= len", ""
 	}
-	if x.Low != nil && !c.Below(x.Low, x.X, false, at) {
+	if x.Low != nil && !c.Below(x.Low, x.X, false, at) && !c.summandOfLen(x.Low, x.X, at) {
 		return false, "", "the low bound " + c.F.Plain(x.Low) + " is not proven <= len(" + c.F.Plain(x.X) + ")"
 	}
 	return true, "0 <= low <= len", ""
+}
+
+// summandOfLen: x was made with a + b elements, v is a (or b) and the other
+// summand is non-negative: v <= len(x).
+func (c *Fn) summandOfLen(v, x ssa.Value, at *ssa.BasicBlock) bool {
+	mk, ok := ssau.ResolveCell(x).(*ssa.MakeSlice)
+	if !ok {
+		return false
+	}
+	sum, ok := mk.Len.(*ssa.BinOp)
+	if !ok || sum.Op != token.ADD {
+		return false
+	}
+	same := func(a ssa.Value) bool { return a == v || c.F.E(a) == c.F.E(v) }
+	if same(sum.X) && c.NonNeg(sum.Y, mk.Block()) {
+		return true
+	}
+	return same(sum.Y) && c.NonNeg(sum.X, mk.Block())
 }
 
 // boundedByData: v is read from loaded data (a field), not computed from a
